@@ -50,7 +50,7 @@ class Grid:
         if name not in self.v:
             if name not in self.ds.variables:
                 return None
-            self.v[name] = np.array(self.ds.variables[name][...], dtype=float) if self.ds.variables[name].dtype.kind in "fiu" else self.ds.variables[name][...]
+            self.v[name] = np.array(self.ds.variables[name][...], dtype=float) if getattr(self.ds.variables[name].dtype, "kind", "S") in "fiu" else self.ds.variables[name][...]
         return self.v[name]
 
     def loc(self, name, loc):
@@ -131,24 +131,51 @@ def obs_C01(g, out):
 
 
 def obs_C12(g, out):
-    """shapes, NaN masks, positivity"""
+    """names, shapes, NaN masks of every numeric variable; positivity; cell orientation"""
     names = sorted(g.ds.variables.keys())
     out["vars"] = names
     shapes = {}
-    nanmask = {}
+    nan2d, nan1d, nan0d = {}, {}, {}
     for n in names:
         v = g.ds.variables[n]
-        if v.dtype.kind in "fiu":
+        if getattr(v.dtype, "kind", "S") in "fiu":
             a = np.array(v[...], dtype=float)
             shapes[n] = list(a.shape)
             if a.ndim == 2:
-                nanmask[n] = (~np.isfinite(a)).astype(int).tolist()
+                nan2d[n] = (~np.isfinite(a)).astype(int).tolist()
             elif a.ndim == 1:
-                nanmask[n] = (~np.isfinite(a)).astype(int).tolist()
+                nan1d[n] = (~np.isfinite(a)).astype(int).tolist()
             else:
-                nanmask[n] = 0 if np.isfinite(a) else 1
+                nan0d[n] = 0 if np.isfinite(a) else 1
+        else:
+            shapes[n] = [-1]
     out["shapes"] = shapes
-    out["nanmask"] = nanmask
+    out["names2d"] = sorted(nan2d)
+    out["nan2d"] = nan2d
+    out["names1d"] = sorted(nan1d)
+    out["nan1d"] = nan1d
+    out["names0d"] = sorted(nan0d)
+    out["nan0d"] = nan0d
+    out["nwall"] = int(len(g.var("closed_wall_R"))) if g.var("closed_wall_R") is not None else -1
+    out["has_pressure"] = 1 if g.cfg.get("pressure") else 0
+    pos = {}
+    for n in ("hy", "hy_xlow", "hy_ylow", "dy", "dy_xlow", "dy_ylow"):
+        pos[n] = (np.array(g.var(n)) > 0).astype(int).tolist()
+    out["positive"] = pos
+    # orientation of every cell from its four corners (sign of the cross product of its two edges at the lower-left corner
+    # and at the upper-right corner): a folded cell has different signs
+    R = {k: g.var("Rxy_" + k) for k in ("corners", "lower_right_corners", "upper_right_corners", "upper_left_corners")}
+    Z = {k: g.var("Zxy_" + k) for k in ("corners", "lower_right_corners", "upper_right_corners", "upper_left_corners")}
+    c1 = (R["lower_right_corners"] - R["corners"]) * (Z["upper_left_corners"] - Z["corners"]) - (Z["lower_right_corners"] - Z["corners"]) * (R["upper_left_corners"] - R["corners"])
+    c2 = (R["upper_left_corners"] - R["upper_right_corners"]) * (Z["lower_right_corners"] - Z["upper_right_corners"]) - (Z["upper_left_corners"] - Z["upper_right_corners"]) * (R["lower_right_corners"] - R["upper_right_corners"])
+    out["orient"] = {"ll": np.sign(c1).astype(int).tolist(), "ur": np.sign(c2).astype(int).tolist()}
+    out["text_ok"] = {}
+    import yaml
+    try:
+        y = yaml.safe_load(str(g.ds.variables["hypnotoad_inputs_yaml"][...]))
+        out["text_ok"]["yaml"] = 1 if isinstance(y, dict) and len(y) > 10 else 0
+    except Exception:
+        out["text_ok"]["yaml"] = 0
 
 
 OBS = {"C01": obs_C01, "C12": obs_C12}
